@@ -639,6 +639,11 @@ class cases_built:
             ok, msg = common.regenerate_all()
             why = None
             if not ok:
+                # only the generated files this property's Coq files import concern it
+                mine = common.gen_failures_for(["Check/StoreCases.v", "Props/C09.v"])
+                ok = not mine
+                msg = "; ".join(mine.values())
+            if not ok:
                 why = "source extractor failed closed: " + msg
             else:
                 if common.write_coqproject() or not os.path.exists(os.path.join(common.COQ, "Makefile")):
